@@ -292,6 +292,355 @@ theorem extract_eq_iff (p : Bytes) (v : View) (hb : baseView p = some v) :
       by_cases hz : byte p 2 = 0 ∧ byte p 3 = 0
       · rw [if_pos (by omega), hx]; simp [hz]
       · rw [if_neg (by omega)]; simp [hz]
+
+/-! ### hash inputs, given where the hashers look for the IP header -/
+
+theorem hashTcp_v4 (p : Bytes) (off : Nat) (hs : ipStart p = off)
+    (hn : byte (p.drop off) 0 / 16 = 4) (hl : 20 ≤ (p.drop off).length) :
+    hashInputTcp p = .bytes (slice (p.drop off) 12 4) := by
+  unfold hashInputTcp
+  rw [hs]
+  simp only [List.length_drop] at hl
+  rw [if_neg (by omega)]
+  simp only [hn, if_true]
+  rw [if_pos (by simp only [List.length_drop]; omega)]
+
+theorem hashTcp_v6 (p : Bytes) (off : Nat) (hs : ipStart p = off)
+    (hn : byte (p.drop off) 0 / 16 = 6) (hl : 24 ≤ (p.drop off).length) :
+    hashInputTcp p = .bytes (slice (p.drop off) 8 16) := by
+  unfold hashInputTcp
+  rw [hs]
+  simp only [List.length_drop] at hl
+  rw [if_neg (by omega)]
+  simp only [hn]
+  rw [if_neg (by omega), if_pos trivial, if_pos (by simp only [List.length_drop]; omega)]
+
+theorem hashHttp_v4 (p : Bytes) (off : Nat) (hs : ipStart p = off)
+    (hn : byte (p.drop off) 0 / 16 = 4) (hl : 40 ≤ (p.drop off).length)
+    (hp : byte (p.drop off) 9 = 6) (hlen : v4Ihl (p.drop off) * 4 + 4 ≤ (p.drop off).length) :
+    hashInputHttp p = canonFlow (slice (p.drop off) 12 4) (slice (p.drop off) 16 4)
+      (be16 (p.drop off) (v4Ihl (p.drop off) * 4)) (be16 (p.drop off) (v4Ihl (p.drop off) * 4 + 2)) := by
+  unfold hashInputHttp
+  rw [hs]
+  have hl' := hl
+  simp only [List.length_drop] at hl'
+  rw [if_neg (by omega)]
+  simp only [hn, if_true]
+  unfold hashV4FlowHttp
+  rw [if_neg (by omega), if_neg (by omega), if_neg (by omega)]
+
+theorem hashHttp_v6 (p : Bytes) (off : Nat) (hs : ipStart p = off)
+    (hn : byte (p.drop off) 0 / 16 = 6) (hl : 44 ≤ (p.drop off).length)
+    (hp : byte (p.drop off) 6 = 6) :
+    hashInputHttp p = canonFlow (slice (p.drop off) 8 16) (slice (p.drop off) 24 16)
+      (be16 (p.drop off) 40) (be16 (p.drop off) 42) := by
+  unfold hashInputHttp
+  rw [hs]
+  have hl' := hl
+  simp only [List.length_drop] at hl'
+  rw [if_neg (by omega)]
+  simp only [hn]
+  rw [if_neg (by omega), if_pos trivial]
+  unfold hashV6FlowHttp
+  rw [if_neg (by omega), if_neg (by omega), if_neg (by omega)]
+
+theorem hashTls_v4 (p : Bytes) (off : Nat) (hs : ipStart p = off)
+    (hn : byte (p.drop off) 0 / 16 = 4) (hl : 40 ≤ (p.drop off).length)
+    (hp : byte (p.drop off) 9 = 6) (hlen : v4Ihl (p.drop off) * 4 + 4 ≤ (p.drop off).length) :
+    hashInputTls p = some (.flow (slice (p.drop off) 12 4) (slice (p.drop off) 16 4)
+      (be16 (p.drop off) (v4Ihl (p.drop off) * 4)) (be16 (p.drop off) (v4Ihl (p.drop off) * 4 + 2))) := by
+  unfold hashInputTls
+  rw [hs]
+  have hl' := hl
+  simp only [List.length_drop] at hl'
+  rw [if_neg (by omega)]
+  simp only [hn, if_true]
+  unfold hashV4FlowTls
+  rw [if_neg (by omega), if_neg (by omega), if_neg (by omega)]
+
+theorem hashTls_v6 (p : Bytes) (off : Nat) (hs : ipStart p = off)
+    (hn : byte (p.drop off) 0 / 16 = 6) (hl : 44 ≤ (p.drop off).length)
+    (hp : byte (p.drop off) 6 = 6) :
+    hashInputTls p = some (.flow (slice (p.drop off) 8 16) (slice (p.drop off) 24 16)
+      (be16 (p.drop off) 40) (be16 (p.drop off) 42)) := by
+  unfold hashInputTls
+  rw [hs]
+  have hl' := hl
+  simp only [List.length_drop] at hl'
+  rw [if_neg (by omega)]
+  simp only [hn]
+  rw [if_neg (by omega), if_pos trivial]
+  unfold hashV6FlowTls
+  rw [if_neg (by omega), if_neg (by omega), if_neg (by omega)]
+
+/-! ### canonical order of the HTTP hasher -/
+
+theorem bytesCmp_swap (a b : Bytes) : bytesCmp b a = (bytesCmp a b).swap := by
+  induction a generalizing b with
+  | nil => cases b <;> simp [bytesCmp, Ordering.swap]
+  | cons x xs ih =>
+    cases b with
+    | nil => simp [bytesCmp, Ordering.swap]
+    | cons y ys =>
+      simp only [bytesCmp]
+      rw [← Nat.compare_swap x.toNat y.toNat]
+      cases h : compare x.toNat y.toNat <;> simp [Ordering.swap, ih]
+
+theorem bytesCmp_eq (a b : Bytes) (h : bytesCmp a b = .eq) : a = b := by
+  induction a generalizing b with
+  | nil => cases b <;> simp_all [bytesCmp]
+  | cons x xs ih =>
+    cases b with
+    | nil => simp [bytesCmp] at h
+    | cons y ys =>
+      simp only [bytesCmp] at h
+      cases hc : compare x.toNat y.toNat <;> simp [hc] at h
+      have hxy : x.toNat = y.toNat := Nat.compare_eq_eq.1 hc
+      have : x = y := UInt8.toNat_inj.1 hxy
+      rw [this, ih ys h]
+
+/-- The endpoint pair is hashed in an order that does not depend on the packet's direction. -/
+theorem canonFlow_swap (s d : Bytes) (sp dp : Nat) : canonFlow s d sp dp = canonFlow d s dp sp := by
+  unfold canonFlow endLe
+  rw [bytesCmp_swap s d]
+  cases h : bytesCmp s d with
+  | lt => simp [Ordering.swap]
+  | gt => simp [Ordering.swap]
+  | eq =>
+    have := bytesCmp_eq s d h
+    subst this
+    simp only [Ordering.swap]
+    by_cases h1 : sp ≤ dp <;> by_cases h2 : dp ≤ sp <;> simp [h1, h2]
+    · have : sp = dp := by omega
+      subst this; simp
+    · omega
+
+
+/-- Where the hashers look, for a frame the analyzers accept outside the framing classes. -/
+theorem seen_locate (p : Bytes) (v : View) (hb : baseView p = some v)
+    (h1 : ¬ KF.C18.looksLikeEthernet v.loc.fr p) (h2 : ¬ KF.C18.nullFraming v.loc.fr)
+    (h3 : ¬ KF.C18.versionNibble v.loc) :
+    v.loc.ip = p.drop (ipStart p) ∧
+      byte v.loc.ip 0 / 16 = (match v.loc.ver with | .v4 => 4 | .v6 => 6) := by
+  obtain ⟨l, hl, hproto, hpl, rfl⟩ := baseView_some p v hb
+  rcases parse_cases p l hl with he | ⟨he, hr⟩ | ⟨he, hr, hn⟩
+  · obtain ⟨h14, ⟨rfl, h8⟩ | ⟨rfl, h8, h6⟩⟩ := tryEthernet_some p l he
+    · simp only [Located.payload] at hpl
+      have hlen := v4Payload_length (p.drop 14)
+      simp only [List.length_drop, v4PayloadStart] at hlen
+      have hle : looksEth p = true := by
+        unfold looksEth; simp [h8]; omega
+      refine ⟨by simp [ipStart, hle], ?_⟩
+      simp only [KF.C18.versionNibble, true_and, Classical.not_not] at h3
+      exact h3
+    · simp only [Located.payload] at hpl
+      have hlen := v6Payload_length (p.drop 14)
+      simp only [List.length_drop] at hlen
+      have hle : looksEth p = true := by
+        unfold looksEth; simp [h6]; omega
+      refine ⟨by simp [ipStart, hle], ?_⟩
+      simp only [KF.C18.versionNibble, true_and, Classical.not_not] at h3
+      exact h3
+  · obtain ⟨h20, ⟨rfl, h4⟩ | ⟨rfl, h4, h6⟩⟩ := tryRawIp_some p l hr
+    · have hle : looksEth p = false := by
+        simp only [KF.C18.looksLikeEthernet] at h1
+        cases h : looksEth p <;> simp_all
+      exact ⟨by simp [ipStart, hle], h4⟩
+    · have hle : looksEth p = false := by
+        simp only [KF.C18.looksLikeEthernet] at h1
+        cases h : looksEth p <;> simp_all
+      exact ⟨by simp [ipStart, hle], h6⟩
+  · obtain ⟨_, _, _, rfl | rfl⟩ := tryNull_some p l hn <;> simp [KF.C18.nullFraming] at h2
+
+/-- What an accepted view guarantees about the IP packet (the hashers' length tests pass). -/
+theorem view_v4_facts (ip : Bytes) (hproto : v4Proto ip = 6) (hpl : 20 ≤ (v4Payload ip).length) :
+    40 ≤ ip.length ∧ byte ip 9 = 6 ∧ v4Ihl ip * 4 + 4 ≤ ip.length := by
+  have hl := v4Payload_length ip
+  unfold v4PayloadStart at hl
+  unfold v4Proto at hproto
+  omega
+
+theorem view_v6_facts (ip : Bytes) (hproto : v6NextHeader ip = 6) (hpl : 20 ≤ (v6Payload ip).length) :
+    60 ≤ ip.length ∧ byte ip 6 = 6 := by
+  have hl := v6Payload_length ip
+  unfold v6NextHeader at hproto
+  omega
+
+theorem analyzerView_base (a : Analyzer) (p : Bytes) (v : View) (h : analyzerView a p = some v) :
+    baseView p = some v := by
+  unfold analyzerView at h
+  cases hb : baseView p with
+  | none => simp [hb] at h
+  | some w =>
+    simp only [hb] at h
+    split at h
+    · simpa using h
+    · simp at h
+
+/-- TCP hasher on an accepted frame outside the classes: the analyzer's source address. -/
+theorem hashInputTcp_seen (a : Analyzer) (p : Bytes) (v : View) (hv : analyzerView a p = some v)
+    (hk : ¬ KF.C18.seen a false p) : hashInputTcp p = .bytes v.loc.src := by
+  have hb := analyzerView_base a p v hv
+  simp only [KF.C18.seen, hv, Bool.false_eq_true, false_and, or_false, not_or] at hk
+  obtain ⟨hip, hnib⟩ := seen_locate p v hb hk.1 hk.2.1 hk.2.2
+  obtain ⟨l, _, hproto, hpl, rfl⟩ := baseView_some p v hb
+  obtain ⟨fr, ver, ip⟩ := l
+  simp only at hip hnib
+  cases ver with
+  | v4 =>
+    simp only [Located.proto, Located.payload] at hproto hpl
+    obtain ⟨h40, _, _⟩ := view_v4_facts ip hproto hpl
+    subst hip
+    simpa [Located.src] using hashTcp_v4 p (ipStart p) rfl hnib (by omega)
+  | v6 =>
+    simp only [Located.proto, Located.payload] at hproto hpl
+    obtain ⟨h60, _⟩ := view_v6_facts ip hproto hpl
+    subst hip
+    simpa [Located.src] using hashTcp_v6 p (ipStart p) rfl hnib (by omega)
+
+/-- the ports the hashers read are the analyzer's when IHL ≥ 5 -/
+theorem ep_of_view_v4 (fr : Framing) (ip : Bytes) (hpl : 20 ≤ (v4Payload ip).length)
+    (h5 : ¬ v4Ihl ip < 5) :
+    (View.mk ⟨fr, .v4, ip⟩ (v4Payload ip)).ep =
+      ⟨.v4, slice ip 12 4, slice ip 16 4, be16 ip (v4Ihl ip * 4), be16 ip (v4Ihl ip * 4 + 2)⟩ := by
+  rw [View.ep_v4 ip fr hpl]
+  have : v4PayloadStart ip = v4Ihl ip * 4 := by unfold v4PayloadStart; omega
+  rw [this]
+
+theorem hashInputHttp_seen (a : Analyzer) (p : Bytes) (v : View) (hv : analyzerView a p = some v)
+    (hk : ¬ KF.C18.seen a true p) :
+    hashInputHttp p = canonFlow v.ep.src v.ep.dst v.ep.sp v.ep.dp := by
+  have hb := analyzerView_base a p v hv
+  simp only [KF.C18.seen, hv, true_and, not_or] at hk
+  obtain ⟨hip, hnib⟩ := seen_locate p v hb hk.1 hk.2.1 hk.2.2.1
+  obtain ⟨l, _, hproto, hpl, rfl⟩ := baseView_some p v hb
+  obtain ⟨fr, ver, ip⟩ := l
+  simp only at hip hnib
+  cases ver with
+  | v4 =>
+    simp only [Located.proto, Located.payload] at hproto hpl
+    obtain ⟨h40, hp6, hlen⟩ := view_v4_facts ip hproto hpl
+    have h5 : ¬ v4Ihl ip < 5 := by
+      have := hk.2.2.2; simp only [KF.C18.ihlBelow5, true_and] at this; exact this
+    simp only [Located.payload]
+    rw [ep_of_view_v4 fr ip hpl h5]
+    subst hip
+    exact hashHttp_v4 p (ipStart p) rfl hnib h40 hp6 hlen
+  | v6 =>
+    simp only [Located.proto, Located.payload] at hproto hpl
+    obtain ⟨h60, hp6⟩ := view_v6_facts ip hproto hpl
+    simp only [Located.payload]
+    rw [View.ep_v6 ip fr hpl]
+    subst hip
+    exact hashHttp_v6 p (ipStart p) rfl hnib (by omega) hp6
+
+theorem hashInputTls_seen (a : Analyzer) (p : Bytes) (v : View) (hv : analyzerView a p = some v)
+    (hk : ¬ KF.C18.seen a true p) :
+    hashInputTls p = some (.flow v.ep.src v.ep.dst v.ep.sp v.ep.dp) := by
+  have hb := analyzerView_base a p v hv
+  simp only [KF.C18.seen, hv, true_and, not_or] at hk
+  obtain ⟨hip, hnib⟩ := seen_locate p v hb hk.1 hk.2.1 hk.2.2.1
+  obtain ⟨l, _, hproto, hpl, rfl⟩ := baseView_some p v hb
+  obtain ⟨fr, ver, ip⟩ := l
+  simp only at hip hnib
+  cases ver with
+  | v4 =>
+    simp only [Located.proto, Located.payload] at hproto hpl
+    obtain ⟨h40, hp6, hlen⟩ := view_v4_facts ip hproto hpl
+    have h5 : ¬ v4Ihl ip < 5 := by
+      have := hk.2.2.2; simp only [KF.C18.ihlBelow5, true_and] at this; exact this
+    simp only [Located.payload]
+    rw [ep_of_view_v4 fr ip hpl h5]
+    subst hip
+    exact hashTls_v4 p (ipStart p) rfl hnib h40 hp6 hlen
+  | v6 =>
+    simp only [Located.proto, Located.payload] at hproto hpl
+    obtain ⟨h60, hp6⟩ := view_v6_facts ip hproto hpl
+    simp only [Located.payload]
+    rw [View.ep_v6 ip fr hpl]
+    subst hip
+    exact hashTls_v6 p (ipStart p) rfl hnib (by omega) hp6
+
+
+theorem wireV4_some (ip : Bytes) (e : Ep) (h : wireV4 ip = some e) :
+    byte ip 0 / 16 = 4 ∧ 5 ≤ v4Ihl ip ∧ v4Ihl ip * 4 + 20 ≤ ip.length ∧ byte ip 9 = 6 ∧
+    e = ⟨.v4, slice ip 12 4, slice ip 16 4, be16 ip (v4Ihl ip * 4), be16 ip (v4Ihl ip * 4 + 2)⟩ := by
+  unfold wireV4 at h
+  split at h
+  · rename_i hc
+    simp only [Option.some.injEq] at h
+    unfold v4Ihl
+    exact ⟨hc.1, hc.2.1, hc.2.2.1, hc.2.2.2, h.symm⟩
+  · simp at h
+
+theorem wireV6_some (ip : Bytes) (e : Ep) (h : wireV6 ip = some e) :
+    byte ip 0 / 16 = 6 ∧ 60 ≤ ip.length ∧ byte ip 6 = 6 ∧
+    e = ⟨.v6, slice ip 8 16, slice ip 24 16, be16 ip 40, be16 ip 42⟩ := by
+  unfold wireV6 at h
+  split at h
+  · rename_i hc
+    simp only [Option.some.injEq] at h
+    exact ⟨hc.1, hc.2.1, hc.2.2, h.symm⟩
+  · simp at h
+
+/-- A well-formed frame of a declared link type, outside the classes: the hashers look at the
+right offset. -/
+theorem wire_locate (fr : Framing) (p : Bytes) (e : Ep) (hw : wireEndpoints fr p = some e)
+    (hk : ¬ KF.C18.wire fr p) :
+    wireV4 (p.drop (ipStart p)) = some e ∨ wireV6 (p.drop (ipStart p)) = some e := by
+  simp only [KF.C18.wire, not_or, KF.C18.looksLikeEthernet, KF.C18.nullFraming] at hk
+  cases fr with
+  | eth =>
+    simp only [wireEndpoints] at hw
+    split at hw; · simp at hw
+    rename_i h14
+    split at hw
+    · rename_i h8
+      obtain ⟨_, h5, hlen, _, _⟩ := wireV4_some _ _ hw
+      simp only [List.length_drop] at hlen
+      have hle : looksEth p = true := by unfold looksEth; simp [h8]; omega
+      left; simpa [ipStart, hle] using hw
+    · split at hw
+      · rename_i h8 h6
+        obtain ⟨_, hlen, _, _⟩ := wireV6_some _ _ hw
+        simp only [List.length_drop] at hlen
+        have hle : looksEth p = true := by unfold looksEth; simp [h6]; omega
+        right; simpa [ipStart, hle] using hw
+      · simp at hw
+  | raw =>
+    have hle : looksEth p = false := by
+      cases h : looksEth p <;> simp_all
+    simp only [wireEndpoints] at hw
+    simp only [ipStart, hle, Bool.false_eq_true, if_false, List.drop_zero]
+    split at hw
+    · rename_i e' he'; left; rw [he']; exact hw
+    · right; exact hw
+  | null => simp at hk
+
+theorem hashInputTcp_wire (fr : Framing) (p : Bytes) (e : Ep) (hw : wireEndpoints fr p = some e)
+    (hk : ¬ KF.C18.wire fr p) : hashInputTcp p = .bytes e.src := by
+  rcases wire_locate fr p e hw hk with h | h
+  · obtain ⟨hn, _, hlen, _, rfl⟩ := wireV4_some _ _ h
+    exact hashTcp_v4 p (ipStart p) rfl hn (by omega)
+  · obtain ⟨hn, hlen, _, rfl⟩ := wireV6_some _ _ h
+    exact hashTcp_v6 p (ipStart p) rfl hn (by omega)
+
+theorem hashInputHttp_wire (fr : Framing) (p : Bytes) (e : Ep) (hw : wireEndpoints fr p = some e)
+    (hk : ¬ KF.C18.wire fr p) : hashInputHttp p = canonFlow e.src e.dst e.sp e.dp := by
+  rcases wire_locate fr p e hw hk with h | h
+  · obtain ⟨hn, h5, hlen, hp, rfl⟩ := wireV4_some _ _ h
+    exact hashHttp_v4 p (ipStart p) rfl hn (by omega) hp (by omega)
+  · obtain ⟨hn, hlen, hp, rfl⟩ := wireV6_some _ _ h
+    exact hashHttp_v6 p (ipStart p) rfl hn (by omega) hp
+
+theorem hashInputTls_wire (fr : Framing) (p : Bytes) (e : Ep) (hw : wireEndpoints fr p = some e)
+    (hk : ¬ KF.C18.wire fr p) : hashInputTls p = some (.flow e.src e.dst e.sp e.dp) := by
+  rcases wire_locate fr p e hw hk with h | h
+  · obtain ⟨hn, h5, hlen, hp, rfl⟩ := wireV4_some _ _ h
+    exact hashTls_v4 p (ipStart p) rfl hn (by omega) hp (by omega)
+  · obtain ⟨hn, hlen, hp, rfl⟩ := wireV6_some _ _ h
+    exact hashTls_v6 p (ipStart p) rfl hn (by omega) hp
+
 end Huginn.Wire
 
 /-! ### witness frames (also the first cases of the correspondence run) -/
@@ -308,3 +657,28 @@ def wNull6 : Bytes := [0x1e, 0x00, 0x00, 0x00, 0x60, 0x00, 0x00, 0x00, 0x00, 0x1
 def allowDst80 : Config := { port := some { dstPorts := [80] } }
 def denyDst80 : Config := { port := some { dstPorts := [80] }, mode := .deny }
 end Huginn.Props.C15
+
+/-! ### witness frames for C18 (the corpus of harness/src/c18.rs) -/
+namespace Huginn.Props.C18
+open Huginn.Wire
+def wRaw8a : Bytes := [0x45, 0x00, 0x00, 0x28, 0x12, 0x34, 0x40, 0x00, 0x40, 0x06, 0x00, 0x00, 0x08, 0x00, 0x01, 0x01, 0x0a, 0x00, 0x00, 0x02, 0xc3, 0x50, 0x00, 0x50, 0x00, 0x00, 0x03, 0xe8, 0x00, 0x00, 0x00, 0x00, 0x50, 0x02, 0xff, 0xff, 0x00, 0x00, 0x00, 0x00]
+def wRaw8b : Bytes := [0x45, 0x00, 0x00, 0x2d, 0x12, 0x34, 0x40, 0x00, 0x40, 0x06, 0x00, 0x00, 0x08, 0x00, 0x01, 0x01, 0x0a, 0x00, 0x00, 0x02, 0xc3, 0x50, 0x00, 0x50, 0x00, 0x00, 0x07, 0xd0, 0x00, 0x00, 0x00, 0x00, 0x50, 0x18, 0xff, 0xff, 0x00, 0x00, 0x00, 0x00, 0x68, 0x65, 0x6c, 0x6c, 0x6f]
+def wRaw134a : Bytes := [0x45, 0x00, 0x00, 0x28, 0x12, 0x34, 0x40, 0x00, 0x40, 0x06, 0x00, 0x00, 0x86, 0xdd, 0x01, 0x01, 0x0a, 0x00, 0x00, 0x02, 0xc3, 0x50, 0x00, 0x50, 0x00, 0x00, 0x03, 0xe8, 0x00, 0x00, 0x00, 0x00, 0x50, 0x02, 0xff, 0xff, 0x00, 0x00, 0x00, 0x00]
+def wRaw134b : Bytes := [0x45, 0x00, 0x00, 0x28, 0x12, 0x34, 0x40, 0x00, 0x40, 0x06, 0x00, 0x00, 0x86, 0xdd, 0x01, 0x01, 0x0a, 0x00, 0x00, 0x02, 0xc3, 0x50, 0x00, 0x50, 0x00, 0x00, 0x03, 0xe8, 0x00, 0x00, 0x00, 0x00, 0x50, 0x02, 0x03, 0xe8, 0x00, 0x00, 0x00, 0x00]
+def wRaw9a : Bytes := [0x45, 0x00, 0x00, 0x28, 0x12, 0x34, 0x40, 0x00, 0x40, 0x06, 0x00, 0x00, 0x09, 0x00, 0x01, 0x01, 0x0a, 0x00, 0x00, 0x02, 0xc3, 0x50, 0x00, 0x50, 0x00, 0x00, 0x03, 0xe8, 0x00, 0x00, 0x00, 0x00, 0x50, 0x02, 0xff, 0xff, 0x00, 0x00, 0x00, 0x00]
+def wRaw9b : Bytes := [0x45, 0x00, 0x00, 0x2d, 0x12, 0x34, 0x40, 0x00, 0x40, 0x06, 0x00, 0x00, 0x09, 0x00, 0x01, 0x01, 0x0a, 0x00, 0x00, 0x02, 0xc3, 0x50, 0x00, 0x50, 0x00, 0x00, 0x07, 0xd0, 0x00, 0x00, 0x00, 0x00, 0x50, 0x18, 0xff, 0xff, 0x00, 0x00, 0x00, 0x00, 0x68, 0x65, 0x6c, 0x6c, 0x6f]
+def wNull4a : Bytes := [0x1e, 0x00, 0x00, 0x00, 0x45, 0x00, 0x00, 0x28, 0x12, 0x34, 0x40, 0x00, 0x40, 0x06, 0x00, 0x00, 0x0a, 0x00, 0x00, 0x01, 0x0a, 0x00, 0x00, 0x02, 0xc3, 0x50, 0x00, 0x50, 0x00, 0x00, 0x03, 0xe8, 0x00, 0x00, 0x00, 0x00, 0x50, 0x02, 0xff, 0xff, 0x00, 0x00, 0x00, 0x00]
+def wNull4b : Bytes := [0x1e, 0x00, 0x00, 0x00, 0x45, 0x00, 0x00, 0x2d, 0x12, 0x34, 0x40, 0x00, 0x40, 0x06, 0x00, 0x00, 0x0a, 0x00, 0x00, 0x01, 0x0a, 0x00, 0x00, 0x02, 0xc3, 0x50, 0x00, 0x50, 0x00, 0x00, 0x07, 0xd0, 0x00, 0x00, 0x00, 0x00, 0x50, 0x18, 0xff, 0xff, 0x00, 0x00, 0x00, 0x00, 0x68, 0x65, 0x6c, 0x6c, 0x6f]
+def wIhl0a : Bytes := [0x02, 0x00, 0x00, 0x00, 0x00, 0x01, 0x02, 0x00, 0x00, 0x00, 0x00, 0x02, 0x08, 0x00, 0x40, 0x00, 0x00, 0x28, 0x12, 0x34, 0x40, 0x00, 0x40, 0x06, 0x00, 0x00, 0x0a, 0x00, 0x00, 0x01, 0x0a, 0x00, 0x00, 0x02, 0xc3, 0x50, 0x00, 0x50, 0x00, 0x00, 0x03, 0xe8, 0x00, 0x00, 0x00, 0x00, 0x50, 0x02, 0xff, 0xff, 0x00, 0x00, 0x00, 0x00]
+def wIhl0b : Bytes := [0x02, 0x00, 0x00, 0x00, 0x00, 0x01, 0x02, 0x00, 0x00, 0x00, 0x00, 0x02, 0x08, 0x00, 0x40, 0x00, 0x00, 0x2d, 0x12, 0x34, 0x40, 0x00, 0x40, 0x06, 0x00, 0x00, 0x0a, 0x00, 0x00, 0x01, 0x0a, 0x00, 0x00, 0x02, 0xc3, 0x50, 0x00, 0x50, 0x00, 0x00, 0x07, 0xd0, 0x00, 0x00, 0x00, 0x00, 0x50, 0x18, 0xff, 0xff, 0x00, 0x00, 0x00, 0x00, 0x68, 0x65, 0x6c, 0x6c, 0x6f]
+def wNib5a : Bytes := [0x02, 0x00, 0x00, 0x00, 0x00, 0x01, 0x02, 0x00, 0x00, 0x00, 0x00, 0x02, 0x08, 0x00, 0x55, 0x00, 0x00, 0x28, 0x12, 0x34, 0x40, 0x00, 0x40, 0x06, 0x00, 0x00, 0x0a, 0x00, 0x00, 0x01, 0x0a, 0x00, 0x00, 0x02, 0xc3, 0x50, 0x00, 0x50, 0x00, 0x00, 0x03, 0xe8, 0x00, 0x00, 0x00, 0x00, 0x50, 0x02, 0xff, 0xff, 0x00, 0x00, 0x00, 0x00]
+def wNib5b : Bytes := [0x02, 0x00, 0x00, 0x00, 0x00, 0x01, 0x02, 0x00, 0x00, 0x00, 0x00, 0x02, 0x08, 0x00, 0x55, 0x00, 0x00, 0x2d, 0x12, 0x34, 0x40, 0x00, 0x40, 0x06, 0x00, 0x00, 0x0a, 0x00, 0x00, 0x01, 0x0a, 0x00, 0x00, 0x02, 0xc3, 0x50, 0x00, 0x50, 0x00, 0x00, 0x07, 0xd0, 0x00, 0x00, 0x00, 0x00, 0x50, 0x18, 0xff, 0xff, 0x00, 0x00, 0x00, 0x00, 0x68, 0x65, 0x6c, 0x6c, 0x6f]
+def wOkA : Bytes := [0x02, 0x00, 0x00, 0x00, 0x00, 0x01, 0x02, 0x00, 0x00, 0x00, 0x00, 0x02, 0x08, 0x00, 0x45, 0x00, 0x00, 0x28, 0x12, 0x34, 0x40, 0x00, 0x40, 0x06, 0x00, 0x00, 0x0a, 0x00, 0x00, 0x01, 0x0a, 0x00, 0x00, 0x02, 0xc3, 0x50, 0x00, 0x50, 0x00, 0x00, 0x03, 0xe8, 0x00, 0x00, 0x00, 0x00, 0x50, 0x02, 0xff, 0xff, 0x00, 0x00, 0x00, 0x00]
+def wOkB : Bytes := [0x02, 0x00, 0x00, 0x00, 0x00, 0x01, 0x02, 0x00, 0x00, 0x00, 0x00, 0x02, 0x08, 0x00, 0x45, 0x00, 0x00, 0x2d, 0x12, 0x34, 0x40, 0x00, 0x40, 0x06, 0x00, 0x00, 0x0a, 0x00, 0x00, 0x01, 0x0a, 0x00, 0x00, 0x02, 0xc3, 0x50, 0x00, 0x50, 0x00, 0x00, 0x07, 0xd0, 0x00, 0x00, 0x00, 0x00, 0x50, 0x18, 0xff, 0xff, 0x00, 0x00, 0x00, 0x00, 0x68, 0x65, 0x6c, 0x6c, 0x6f]
+def wOkRev : Bytes := [0x02, 0x00, 0x00, 0x00, 0x00, 0x01, 0x02, 0x00, 0x00, 0x00, 0x00, 0x02, 0x08, 0x00, 0x45, 0x00, 0x00, 0x28, 0x12, 0x34, 0x40, 0x00, 0x40, 0x06, 0x00, 0x00, 0x0a, 0x00, 0x00, 0x02, 0x0a, 0x00, 0x00, 0x01, 0x00, 0x50, 0xc3, 0x50, 0x00, 0x00, 0x03, 0xe8, 0x00, 0x00, 0x00, 0x00, 0x50, 0x02, 0xff, 0xff, 0x00, 0x00, 0x00, 0x00]
+/-- a simple hash function for the witnesses: weighted byte sums -/
+def bsum (b : Bytes) : Nat := b.foldl (fun a x => a + x.toNat) 0
+def sumH : HashIn → Nat
+  | .bytes b => bsum b
+  | .flow a b p q => bsum a + 3 * bsum b + 5 * p + 7 * q
+end Huginn.Props.C18
